@@ -27,7 +27,7 @@ def poly_supplier(x, y, coeffs=(1.0, 0.5, 0.25)):
 
 
 def gen_series(rng, m, ties=True, integer=False):
-    x = rng.increasing(m)
+    x = rng.increasing(m, jitter=(not integer and rng.random() < 0.2))
     if integer:
         x = [Fraction(int(v * 4)) for v in x]
         x = sorted(set(x))
@@ -40,6 +40,19 @@ def gen_series(rng, m, ties=True, integer=False):
         y = rng.values(m)
     if rng.random() < 0.05:
         y = [y[0]] * m
+    r = rng.random()
+    if r < 0.12:
+        # near-ties: neighbouring averages that differ by a tiny but non-zero amount next to real jumps
+        # (a tolerance-based equality test would take them for equal)
+        base = Fraction(rng.randint(2, 40))
+        tiny = [Fraction(0), Fraction(1, 2 ** 30), Fraction(1, 2 ** 29), Fraction(3, 2 ** 31), Fraction(0)]
+        y = [(base + rng.choice(tiny)) if rng.random() < 0.6 else rng.dyadic() for _ in range(m)]
+    elif r < 0.18:
+        # tiny magnitudes / large offsets (exactly representable)
+        if rng.random() < 0.5:
+            y = [Fraction(int(v * 8), 8 * 2 ** 40) for v in y]
+        else:
+            y = [Fraction(2 ** 20) + Fraction(int(v * 8), 8) for v in y]
     return x, y
 
 
